@@ -213,6 +213,37 @@ def _fmt(outs: set[tuple[str, str]], fi: FuncInfo, loops: dict) -> str:
     return "{" + ", ".join(f"{'returns' if k == 'ret' else 'raises'} `{_pretty(v, fi, loops)}`" for k, v in sorted(outs)) + "}" if outs else "{}"
 
 
+def _syntactic_reads(f: FuncInfo, loc: str) -> list[tuple[ast.AST, str]]:
+    """loads of ``self.<loc>`` in the method that the executor reports no read event for (``f(*self.dicts)``, the list
+    handed whole to a call): (outermost expression that only wraps / selects from the list, its canonical text)."""
+    if not f.params or f.cls is None:
+        return []
+    me = f.params[0]
+    parent: dict[int, ast.AST] = {}
+    for n in ast.walk(f.node):
+        for ch in ast.iter_child_nodes(n):
+            parent[id(ch)] = n
+    out = []
+    for n in ast.walk(f.node):
+        if isinstance(n, ast.Attribute) and n.attr == loc and isinstance(n.ctx, ast.Load) and isinstance(n.value, ast.Name) and n.value.id == me:
+            top: ast.AST = n
+            while True:
+                p = parent.get(id(top))
+                if isinstance(p, ast.Subscript) and p.value is top and isinstance(p.slice, ast.Slice):
+                    top = p
+                elif isinstance(p, ast.Call) and top in p.args and (dotted(p.func) or "") in ORDER_KEEPING | PARTIAL:
+                    top = p
+                elif isinstance(p, ast.Call) and isinstance(p.func, ast.Attribute) and p.func.value is top and p.func.attr == "copy" and not p.args:
+                    top = p
+                else:
+                    break
+            p = parent.get(id(top))
+            if isinstance(p, (ast.For, ast.AsyncFor, ast.comprehension)) and p.iter is top:
+                continue  # the iterable of a scan: judged there
+            out.append((top, re.sub(r"\b" + re.escape(me) + r"\." + re.escape(loc) + r"\b", f"{H.SELF}.{loc}", norm(top))))
+    return out
+
+
 def combined_read_through_rule(ctx: Ctx, rid: str) -> tuple[int, int]:
     """R8.7; returns (#read methods judged, #explicit scan loops judged)."""
     repo = ctx.repo
@@ -231,7 +262,7 @@ def combined_read_through_rule(ctx: Ctx, rid: str) -> tuple[int, int]:
         if f.fq in seen:
             return False
         sc = scan_of(f)
-        if sc.reads_list:
+        if sc.reads_list or _syntactic_reads(f, loc):
             return True
         for nm in sorted(sc.follows):
             if nm.startswith("="):
@@ -316,6 +347,16 @@ def combined_read_through_rule(ctx: Ctx, rid: str) -> tuple[int, int]:
                 if c == "partial":
                     qual = lfi.qualname if lfi else cls.name
                     ctx.ob(rid, f"{qual}: the comprehension over `{src}` visits every wrapped dict in list order", False, f"iterable `{src}` is a selection / reordering of the list", lfi or cls.fq, g.iter, f"{qual} scan iterable `{src}`")
+        # the list handed on whole outside a loop header (``f(*self.dicts)``), in the method and the helpers it entered
+        for fq_ in [fq] + sorted(nm[1:] for nm in sc.follows if nm.startswith("=")):
+            f_ = repo.try_func(fq_)
+            for top, canon_ in _syntactic_reads(f_, loc) if f_ is not None else []:
+                key = (fq_, _pos(top))
+                if key in done:
+                    continue
+                done.add(key)
+                if coverage(canon_, loc) == "partial":
+                    ctx.ob(rid, f"{f_.qualname}: the read `{norm(top)}` hands on every wrapped dict in list order", False, f"`{norm(top)}` is a selection / reordering of the list", f_, top, f"{f_.qualname} scan iterable `{norm(top)}`")
     return nread, nloops
 
 
@@ -662,6 +703,38 @@ def removal_loop_rule(ctx: Ctx, rid: str) -> tuple[int, int]:
 LOOKUP_ERRORS = {"KeyError", "BadRequestKeyError", "LookupError", "IndexError"}
 
 
+class _GetExec(H.Exec):
+    """the executor, additionally saying which function a ``raise`` statement is executed in."""
+
+    def _raise_node(self, a, node, st, fr, work, out):  # type: ignore[override]
+        st = self.emit(st, ("raising", a, fr.fi))
+        return super()._raise_node(a, node, st, fr, work, out)
+
+
+def _same_call_returned(a, ev, st):
+    """path automaton for R8.9: a call that returned normally cannot raise when it is repeated with the same arguments
+    while the object is unchanged (the membership test that ran the lookup, then the lookup itself).  State: (active
+    calls, calls that returned since the last mutation, an infeasible repetition was seen)."""
+    stack, returned, dead = a
+    k = ev[0]
+    fi = ev[-1] if isinstance(ev[-1], FuncInfo) else None
+    if k == "enter" and fi is not None:
+        stack = stack + ((fi.fq, ev[2]),)
+    elif k in ("return", "raising") and fi is not None:
+        idx = max((i for i, (fq, _) in enumerate(stack) if fq == fi.fq), default=None)
+        if idx is not None:
+            if k == "return":
+                returned = returned | {stack[idx]}
+                stack = stack[:idx]
+            else:
+                stack = stack[: idx + 1]  # what lies above was left by an exception that has been handled
+                if stack[-1] in returned:
+                    dead = True
+    elif k in ("mut", "store", "storeitem"):
+        returned = frozenset()
+    return (stack, returned, dead)
+
+
 def get_never_raises_rule(ctx: Ctx, rid: str) -> tuple[int, int]:
     """R8.9: ``get`` of every container class (resolved in its MRO, item access / membership / helpers inlined as the
     class's MRO resolves them - a subclass's ``__getitem__`` that also raises for a key that is present without values
@@ -676,11 +749,15 @@ def get_never_raises_rule(ctx: Ctx, rid: str) -> tuple[int, int]:
         if not isinstance(g, FuncInfo) or not g.module.name.startswith(CONTAINER_PKG):
             continue
         _, gi = repo.lookup(c, "__getitem__")
-        ex = H.Exec(repo, c, on_event=lambda a, ev, st: a)  # (events only feed the line trail of the report)
-        outs = ex.run_function(g, auto0=None)
+        ex = _GetExec(repo, c, on_event=_same_call_returned)
+        outs = ex.run_function(g, auto0=((), frozenset(), False))
         raised: dict[str, H.Out] = {}
+        n_dead = 0
         for o in outs:
             if o.kind == "raise" and not o.value.startswith("~"):
+                if o.st.auto[2]:
+                    n_dead += 1  # the raising call had already returned normally for the same arguments on this path
+                    continue
                 raised.setdefault(o.value, o)
         if "?" in raised and not (set(raised) & LOOKUP_ERRORS):
             raise AnalysisError(f"{c.name}.get ({g.fq}): a path raises an exception whose type the executor cannot name (lines {', '.join(map(str, raised['?'].st.trail))})")
@@ -693,13 +770,29 @@ def get_never_raises_rule(ctx: Ctx, rid: str) -> tuple[int, int]:
             fact = f"get resolves to {g.qualname}, item access to {gi.qualname if isinstance(gi, FuncInfo) else 'the builtin'}: a path lets {bad[0]} escape (lines {', '.join(map(str, o.st.trail))}; on that path: {known or 'no condition on the key'}) instead of returning the default"
         else:
             others = sorted(set(raised) - LOOKUP_ERRORS)
-            fact = f"get resolves to {g.qualname}, item access to {gi.qualname if isinstance(gi, FuncInfo) else 'the builtin'}: {len(outs)} path outcome(s), no explicitly raised lookup error escapes" + (f" (other explicit raises: {others})" if others else "")
+            fact = f"get resolves to {g.qualname}, item access to {gi.qualname if isinstance(gi, FuncInfo) else 'the builtin'}: {len(outs)} path outcome(s), no explicitly raised lookup error escapes" + (f" (other explicit raises: {others})" if others else "") + (f"; {n_dead} raising path(s) repeat a call that had returned normally for the same arguments on the unchanged object - infeasible" if n_dead else "")
         ctx.ob(rid, f"{c.name}.get returns the default instead of raising for a key without value", not bad, fact, g, g.node, f"{c.name}.get never raises")
     return n, n_pkg
 
 
 # =====================================================================================================================
 # R8.10 - the pickle reduction of a multi dict carries every value
+#
+# Meaning: the value the reduction hands to pickle must be *derived from a read of the object that carries every value
+# of every key*.  Which spelling the derivation takes does not matter: the read can sit in the returned expression,
+# reach it through locals, through a private helper / another method of the class / a module-level helper, through
+# ``super()``, or through a container that a loop fills element by element.  Two decision procedures:
+#
+#   * term mode - the path executor's return terms (locals, tuple assignments, conditional expressions, private and
+#     module-level helpers resolved), judged per path; used when the reduction and the helpers it inlines never mutate a
+#     local container (then a term says everything about the value);
+#   * flow mode - a flow-insensitive def/use closure on the AST of the function: which reads of the object reach the
+#     returned expression through bindings, loop targets and container growth (append / extend / update / item store /
+#     setdefault(...).append ...).  All pairs of items(multi=True) stored per key into a dict (``state[key] = value``,
+#     last one wins) are the first-value view again; appended to a list, or to a per-key list, they are complete.
+#
+# Method calls on the object that are not reader names of the model (``self.__getstate__()``, ``self._pickle_args()``)
+# and module-level helpers that receive the object are followed: the call is as complete as the callee's own result.
 
 MULTIDICT = "datastructures.structures.MultiDict"
 FLATTENING_CALLS = {"dict", "list", "tuple", "set", "frozenset", "sorted", "iter", "enumerate", "zip", "map", "filter", "reversed", "next"}
@@ -708,6 +801,10 @@ LIST_READERS = {"lists", "listvalues", "getlist", "poplist"}
 OBJECT_READERS = {"copy", "deepcopy", "__copy__", "__deepcopy__"}
 KEY_READERS = {"keys", "__iter__", "__len__", "__contains__"}
 FLAT_READERS = {"values", "get", "__getitem__", "pop", "popitem", "setdefault"}
+# the same names on the builtin dict under the multi dict read the raw storage: the values are the per-key lists
+RAW_STORAGE_READERS = {"items", "values", "copy", "get", "__getitem__", "pop", "popitem", "setdefault"}
+GROW_METHODS = {"append", "extend", "add", "update", "insert", "appendleft", "extendleft", "__setitem__"}
+_OPAQUE_TERM = re.compile(r"__(?:nonempty|maybe|wide)_\w*__|__unparsable__|\bself\b")
 
 
 def _const_arg(call: ast.Call, pos: int, name: str) -> t.Any:
@@ -719,11 +816,243 @@ def _const_arg(call: ast.Call, pos: int, name: str) -> t.Any:
     return None  # not given
 
 
-def _state_reads(term: str, repo: Repo, cls: ClassInfo, md: ClassInfo, module) -> list[tuple[str, str]]:
-    """how a pickle state term reads the object: (kind, text) per occurrence of the object in the term.  kinds:
+def _grown_local(e: ast.AST) -> str | None:
+    """the local container an expression denotes a part of: ``x``, ``x[k]``, ``x.setdefault(k, [])``, ``x.get(k)``."""
+    for _ in range(4):
+        if isinstance(e, ast.Name):
+            return e.id
+        if isinstance(e, ast.Subscript):
+            e = e.value
+        elif isinstance(e, ast.Call) and isinstance(e.func, ast.Attribute) and e.func.attr in ("setdefault", "get", "__getitem__"):
+            e = e.func.value
+        else:
+            return None
+    return None
+
+
+def _mutates_local_container(fn: ast.AST) -> bool:
+    """does the function grow / store into a container held in a local (then the executor's term for that local does
+    not describe its final content)?"""
+    me = fn.args.args[0].arg if getattr(fn, "args", None) and fn.args.args else None  # type: ignore[attr-defined]
+    for n in _own_nodes(list(fn.body)):  # type: ignore[attr-defined]
+        if isinstance(n, ast.Call) and isinstance(n.func, ast.Attribute) and n.func.attr in GROW_METHODS | {"setdefault"}:
+            x = _grown_local(n.func.value)
+            if x is not None and x != me:
+                return True
+        elif isinstance(n, (ast.Assign, ast.AnnAssign, ast.AugAssign)):
+            tgs = n.targets if isinstance(n, ast.Assign) else [n.target]
+            for tg in tgs:
+                for y in ast.walk(tg):
+                    if isinstance(y, ast.Subscript) and _grown_local(y.value) not in (None, me):
+                        return True
+            if isinstance(n, ast.AugAssign) and isinstance(n.target, ast.Name):
+                return True
+    return False
+
+
+class _PickleJudge:
+    """decides, for one class, whether the value a function returns is derived from a complete read of the object."""
+
+    def __init__(self, repo: Repo, cls: ClassInfo, md: ClassInfo) -> None:
+        self.repo, self.cls, self.md = repo, cls, md
+        self.memo: dict[tuple[str, int], tuple[bool, list[str], list[str]]] = {}
+
+    # ---- callees ------------------------------------------------------------------------------------------------
+    def _callees(self, fi: FuncInfo, me: str | None) -> list[FuncInfo]:
+        out: list[FuncInfo] = []
+        for n in _own_nodes(list(fi.node.body)):  # type: ignore[attr-defined]
+            if not isinstance(n, ast.Call):
+                continue
+            g = None
+            if isinstance(n.func, ast.Attribute) and isinstance(n.func.value, ast.Name) and n.func.value.id == me:
+                a = n.func.attr
+                if a.startswith("_") and not (a.startswith("__") and a.endswith("__")):  # what the executor inlines
+                    _, g = self.repo.lookup(self.cls, a)
+            elif isinstance(n.func, ast.Name):
+                tgt = self.repo.resolve(fi.module, n.func.id)
+                g = self.repo.try_func(tgt) if tgt and tgt.startswith("werkzeug") else None
+            if isinstance(g, FuncInfo) and g is not fi and g not in out:
+                out.append(g)
+        return out
+
+    def _term_mode_ok(self, fi: FuncInfo, me: str | None) -> bool:
+        seen: set[str] = set()
+        work = [fi]
+        while work:
+            f = work.pop()
+            if f.fq in seen:
+                continue
+            seen.add(f.fq)
+            if _mutates_local_container(f.node):
+                return False
+            if len(seen) > 40:
+                return False
+            work.extend(self._callees(f, f.params[0] if f.params and f.cls is not None else None))
+        return True
+
+    # ---- the judgement of one function --------------------------------------------------------------------------
+    def judge(self, fi: FuncInfo, me_idx: int = 0, stack: frozenset = frozenset()) -> tuple[bool, list[str], list[str]]:
+        """(every returned value is derived from a complete read, facts, descriptions of the values that are not).
+        ``me_idx``: which parameter holds the multi dict (0 for methods)."""
+        key = (fi.fq, me_idx)
+        if key in self.memo:
+            return self.memo[key]
+        if key in stack:
+            raise AnalysisError(f"{self.cls.name}: the pickle state is computed recursively through {fi.qualname}")
+        stack = stack | {key}
+        me = fi.params[me_idx] if len(fi.params) > me_idx else None
+        if me is None:
+            raise AnalysisError(f"{self.cls.name}: {fi.qualname} has no parameter {me_idx} to hold the object")
+        follow = lambda g, idx=0: self.judge(g, idx, stack)  # noqa: E731
+        facts: list[str] = []
+        bad: list[str] = []
+        vals: list[str] | None = None
+        is_generator = any(isinstance(n, (ast.Yield, ast.YieldFrom)) for n in _own_nodes(list(fi.node.body)))  # type: ignore[attr-defined]
+        if me_idx == 0 and fi.cls is not None and not is_generator and self._term_mode_ok(fi, me):
+            ex = H.Exec(self.repo, self.cls, inline_public=False)
+            vals = sorted({o.value for o in ex.run_function(fi, auto0=None) if o.kind == "ret"})
+            if not vals:
+                raise AnalysisError(f"{self.cls.name}: {fi.qualname} has no returning path")
+            if any(_OPAQUE_TERM.search(v) for v in vals):
+                vals = None  # a local the executor widened / a name it left unresolved: the term does not say what it holds
+        if vals is not None:
+            judged = [(v, _state_reads(v, self, fi, follow)) for v in vals]
+            some_complete = any(k in ("lists", "pairs", "object") for _, reads in judged for k, _t in reads)
+            for v, reads in judged:
+                if not reads and some_complete:
+                    # a path whose state does not mention the object (``if not self: return cls, ([],)``) next to paths
+                    # that read it completely: which objects take that path is not decided here - not the flat view
+                    facts.append(f"`{v}` is a constant state")
+                    continue
+                self._verdict(f"`{v}`", reads, fi, facts, bad)
+        else:
+            self._verdict(f"the value built in {fi.qualname}", self._flow_reads(fi, me, follow), fi, facts, bad)
+        res = (not bad, facts, bad)
+        self.memo[key] = res
+        return res
+
+    def _verdict(self, what: str, reads: list[tuple[str, str]], fi: FuncInfo, facts: list[str], bad: list[str]) -> None:
+        complete = [t_ for k, t_ in reads if k in ("lists", "pairs", "object")]
+        unknown = [t_ for k, t_ in reads if k == "unknown"]
+        flat = [t_ for k, t_ in reads if k == "flat"]
+        if complete:
+            facts.append(f"{what} reads every value through `{complete[0]}`")
+        elif unknown:
+            raise AnalysisError(f"{self.cls.name}: cannot decide whether the pickle state {what} ({fi.qualname}) carries every value: `{unknown[0]}` is not a read the rule knows")
+        else:
+            bad.append(f"{what} is built from {('`' + flat[0] + '`') if flat else 'nothing of the object'} - the first-value view of the multi dict (one value per key): the additional values of a key do not survive a pickle round trip")
+
+    # ---- flow mode ----------------------------------------------------------------------------------------------
+    def _flow_reads(self, fi: FuncInfo, me: str, follow) -> list[tuple[str, str]]:
+        fn = fi.node
+        own = _own_nodes(list(fn.body))  # type: ignore[attr-defined]
+        contrib: dict[str, list[tuple[ast.AST, str]]] = {}
+
+        def add(name: str | None, expr: ast.AST | None, how: str) -> None:
+            if name is not None and name != me and expr is not None:
+                contrib.setdefault(name, []).append((expr, how))
+
+        def mentions(e: ast.AST, name: str) -> bool:
+            return any(isinstance(y, ast.Name) and y.id == name for y in ast.walk(e))
+
+        def bind_target(tg: ast.AST, value: ast.AST | None, how: str) -> None:
+            if isinstance(tg, ast.Name):
+                add(tg.id, value, how)
+            elif isinstance(tg, (ast.Tuple, ast.List, ast.Starred)):
+                for el in getattr(tg, "elts", None) or [tg.value]:  # type: ignore[attr-defined]
+                    bind_target(el, value, how)
+            elif isinstance(tg, ast.Subscript):
+                x = _grown_local(tg.value)
+                if x is not None and value is not None:
+                    add(x, value, "grow" if mentions(value, x) or not isinstance(tg.value, ast.Name) else "item")
+                    add(x, tg.slice, "key")
+            elif isinstance(tg, ast.Attribute):
+                x = _grown_local(tg.value)
+                add(x, value, "grow")
+
+        for n in own:
+            if isinstance(n, ast.Assign):
+                for tg in n.targets:
+                    bind_target(tg, n.value, "bind")
+            elif isinstance(n, ast.AnnAssign):
+                bind_target(n.target, n.value, "bind")
+            elif isinstance(n, ast.AugAssign):
+                if isinstance(n.target, ast.Name):
+                    add(n.target.id, n.value, "grow")
+                else:
+                    add(_grown_local(n.target), n.value, "grow")
+            elif isinstance(n, (ast.For, ast.AsyncFor)):
+                bind_target(n.target, n.iter, "elem")
+            elif isinstance(n, ast.NamedExpr):
+                add(n.target.id, n.value, "bind")
+            elif isinstance(n, (ast.With, ast.AsyncWith)):
+                for it in n.items:
+                    if it.optional_vars is not None:
+                        bind_target(it.optional_vars, it.context_expr, "bind")
+            elif isinstance(n, ast.Call) and isinstance(n.func, ast.Attribute) and n.func.attr in GROW_METHODS | {"setdefault"}:
+                x = _grown_local(n.func.value)
+                if x is not None and x != me:
+                    # x.__setitem__(k, v) / x.setdefault(k, v): one value per key survives (the last / the first one)
+                    direct_store = n.func.attr in ("__setitem__", "setdefault") and isinstance(n.func.value, ast.Name)
+                    for i, a_ in enumerate(n.args):
+                        how = "grow"
+                        if direct_store and not isinstance(a_, ast.Starred):
+                            how = "key" if i == 0 else "item" if not mentions(a_, x) else "grow"
+                        add(x, a_.value if isinstance(a_, ast.Starred) else a_, how)
+                    for kw in n.keywords:
+                        add(x, kw.value, "grow")
+
+        returns = [n.value for n in own if isinstance(n, ast.Return) and n.value is not None]
+        returns += [n.value for n in own if isinstance(n, (ast.Yield, ast.YieldFrom)) and n.value is not None]
+        if not returns:
+            raise AnalysisError(f"{self.cls.name}: {fi.qualname} returns no value")
+        out: list[tuple[str, str]] = []
+        seen: set[tuple[int, str]] = set()
+        # phase: 'plain' | 'item' (reached through a per-key store into a dict) | 'collapsed' (.. of a loop element) |
+        # 'keyonly' (reached as the key of such a store)
+        work: list[tuple[ast.AST, str, bool]] = [(r, "plain", False) for r in returns]
+        steps = 0
+        while work:
+            e, phase, iterated = work.pop()
+            if (id(e), phase) in seen:
+                continue
+            seen.add((id(e), phase))
+            steps += 1
+            if steps > 2000:
+                raise AnalysisError(f"{self.cls.name}: {fi.qualname}: value flow too large to follow")
+            repl = {id(y): H.SELF for y in ast.walk(e) if isinstance(y, ast.Name) and y.id == me}
+            txt = H.text(H.clone(e, repl)) if repl else norm(e)
+            if iterated:
+                txt = f"iter({txt})"  # the expression is consumed by iteration (a bare multi dict then gives its keys)
+            for kind, rt in _state_reads(txt, self, fi, follow):
+                if phase == "keyonly" and kind != "unknown":
+                    kind = "keys"  # reached only as the key of a per-key store: contributes keys, no values
+                elif kind == "pairs" and phase == "collapsed":
+                    kind, rt = "flat", f"{rt} stored per key (one value of a key survives)"
+                out.append((kind, rt))
+            for y in ast.walk(e):
+                if isinstance(y, ast.Name) and isinstance(y.ctx, ast.Load) and y.id in contrib:
+                    for expr, how in contrib[y.id]:
+                        if phase == "keyonly" or how == "key":
+                            nxt = "keyonly"
+                        elif how == "item":
+                            nxt = "item"
+                        elif how == "elem":
+                            nxt = "collapsed" if phase in ("item", "collapsed") else "plain"
+                        elif how == "grow":
+                            nxt = "plain"
+                        else:  # bind: keeps the phase
+                            nxt = phase
+                        work.append((expr, nxt, how == "elem"))
+        return out
+
+
+def _state_reads(term: str, judge: _PickleJudge, fi: FuncInfo, follow) -> list[tuple[str, str]]:
+    """how a pickle state expression reads the object: (kind, text) per occurrence of the object in it.  kinds:
     'lists' - per-key value lists / raw storage (complete whatever wraps it); 'pairs' - all (key, value) pairs
     (complete unless collapsed by ``dict(...)``); 'object' - the multi dict itself or a copy (complete unless handed to
     a builtin that iterates it like a plain dict); 'flat' - the first-value view; 'keys' - keys only; 'unknown'."""
+    repo, cls, md, module = judge.repo, judge.cls, judge.md, fi.module
     tree = H.P(term)
     parent: dict[int, ast.AST] = {}
     for n in ast.walk(tree):
@@ -741,6 +1070,10 @@ def _state_reads(term: str, repo: Repo, cls: ClassInfo, md: ClassInfo, module) -
             cur = parent.get(id(cur))
         return False
 
+    def followed(g: FuncInfo, idx: int = 0) -> str:
+        ok, _, _ = follow(g, idx)
+        return "lists" if ok else "flat"
+
     def as_object(n: ast.AST) -> str:
         """the node denotes the multi dict (or a copy of it): what does its context do with it?"""
         p = parent.get(id(n))
@@ -748,6 +1081,10 @@ def _state_reads(term: str, repo: Repo, cls: ClassInfo, md: ClassInfo, module) -
             d = dotted(p.func) or ""
             if d in RAW_DICT_READS:
                 return "lists"
+            if d.startswith("dict.") and p.args[0] is n:
+                # an unbound method of the builtin dict applied to the object: the raw storage (values = per-key lists)
+                a = d[5:]
+                return "lists" if a in RAW_STORAGE_READERS else "keys" if a in KEY_READERS else "unknown"
             if d in FLATTENING_CALLS:
                 return "flat"
             if d.rsplit(".", 1)[-1] in ("copy", "deepcopy"):
@@ -756,6 +1093,9 @@ def _state_reads(term: str, repo: Repo, cls: ClassInfo, md: ClassInfo, module) -
             k = repo.try_cls(tgt) if tgt and tgt.startswith("werkzeug") else None
             if k is not None and any(x is md for x in repo.mro(k)):
                 return as_object(p)  # the copying constructor keeps every list
+            g = repo.try_func(tgt) if tgt and tgt.startswith("werkzeug") else None
+            if isinstance(g, FuncInfo) and g.cls is None and not any(isinstance(a_, ast.Starred) for a_ in p.args) and not p.keywords:
+                return followed(g, p.args.index(n))  # a module-level helper of the package that receives the object
             return "unknown"
         if isinstance(p, ast.comprehension) and p.iter is n:
             return "keys"
@@ -763,45 +1103,80 @@ def _state_reads(term: str, repo: Repo, cls: ClassInfo, md: ClassInfo, module) -
             return "object"
         return "unknown"
 
+    def method_read(a: str, call: ast.Call, what: t.Any, raw: bool, argcall: ast.Call | None = None) -> tuple[str, str]:
+        """kind of ``<object>.a(...)``; ``raw``: the name resolved to the builtin dict under the multi dict;
+        ``argcall``: the call whose arguments are the method's (differs from the node for a generator stub)."""
+        txt = H.text(call)
+        node = call
+        if argcall is not None:
+            call = argcall
+        if raw:
+            return ("lists" if a in RAW_STORAGE_READERS else "keys" if a in KEY_READERS else "unknown"), txt
+        if a == "items":
+            multi = _const_arg(call, 0, "multi")
+            kind = "pairs" if multi is True else "flat" if multi in (None, False) else "unknown"
+            if kind == "pairs" and collapsed_by_dict(node):
+                kind, txt = "flat", f"dict(.. {txt} ..)"
+        elif a == "to_dict":
+            flat = _const_arg(call, 0, "flat")
+            kind = "lists" if flat is False else "flat" if flat in (None, True) else "unknown"
+        elif a in LIST_READERS:
+            kind = "lists"
+        elif a in OBJECT_READERS:
+            kind = as_object(node)
+            if kind == "flat":
+                txt = H.text(parent[id(node)])
+        elif a in KEY_READERS:
+            kind = "keys"
+        elif a in FLAT_READERS:
+            kind = "flat"
+        elif isinstance(what, FuncInfo):
+            kind = followed(what)  # another method of the class: as complete as what it returns
+        else:
+            kind = "unknown"
+        return kind, txt
+
     for x in ast.walk(tree):
+        # ---- super().name(...): resolved behind the class that defines the function
+        if isinstance(x, ast.Call) and dotted(x.func) == "super" and not x.args:
+            p = parent.get(id(x))
+            pp = parent.get(id(p)) if p is not None else None
+            if isinstance(p, ast.Attribute) and isinstance(pp, ast.Call) and pp.func is p and fi.cls is not None:
+                owner, what = repo.lookup(cls, p.attr, after=fi.cls.fq)
+                out.append(method_read(p.attr, pp, what, raw=not isinstance(what, FuncInfo) and isinstance(owner, BuiltinClass)))
+            else:
+                out.append(("unknown", H.text(p if p is not None else x)))
+            continue
         if not (isinstance(x, ast.Name) and x.id == H.SELF):
             continue
         p = parent.get(id(x))
         if isinstance(p, ast.Call) and dotted(p.func) == "type" and x in p.args:
+            continue
+        gen = re.fullmatch(r"__gen_(\w+)__", dotted(p.func) or "") if isinstance(p, ast.Call) and p.args and p.args[0] is x else None
+        if gen is not None:
+            # the executor's stub for a generator method it entered (``super().items()`` -> ``__gen_items__(self)``)
+            assert isinstance(p, ast.Call)
+            _, what = repo.lookup(cls, gen.group(1))
+            shifted = ast.Call(func=ast.Name(id=gen.group(1), ctx=ast.Load()), args=list(p.args[1:]), keywords=list(p.keywords))
+            out.append(method_read(gen.group(1), p, what, raw=False, argcall=shifted))
             continue
         if isinstance(p, ast.Attribute) and p.value is x:
             if p.attr == "__class__":
                 continue
             pp = parent.get(id(p))
             called = isinstance(pp, ast.Call) and pp.func is p
-            _, what = repo.lookup(cls, p.attr)
+            owner, what = repo.lookup(cls, p.attr)
             if not called:
-                out.append(("lists" if not isinstance(what, FuncInfo) and what != "builtin" else "unknown", H.text(p)))
+                if isinstance(what, FuncInfo) or what == "builtin":
+                    # a bound reader handed on (``map(self.getlist, keys)``): it reads what a plain call of it reads
+                    a = p.attr
+                    kind = "lists" if a in LIST_READERS else "flat" if a in FLAT_READERS | {"items", "to_dict"} else "keys" if a in KEY_READERS else "unknown"
+                else:
+                    kind = "lists"  # a storage attribute
+                out.append((kind, H.text(p)))
                 continue
             assert isinstance(pp, ast.Call)
-            txt = H.text(pp)
-            a = p.attr
-            if a == "items":
-                multi = _const_arg(pp, 0, "multi")
-                kind = "pairs" if multi is True else "flat" if multi in (None, False) else "unknown"
-                if kind == "pairs" and collapsed_by_dict(pp):
-                    kind, txt = "flat", f"dict(.. {txt} ..)"
-            elif a == "to_dict":
-                flat = _const_arg(pp, 0, "flat")
-                kind = "lists" if flat is False else "flat" if flat in (None, True) else "unknown"
-            elif a in LIST_READERS:
-                kind = "lists"
-            elif a in OBJECT_READERS:
-                kind = as_object(pp)
-                if kind == "flat":
-                    txt = H.text(parent[id(pp)])
-            elif a in KEY_READERS:
-                kind = "keys"
-            elif a in FLAT_READERS:
-                kind = "flat"
-            else:
-                kind = "unknown"
-            out.append((kind, txt))
+            out.append(method_read(p.attr, pp, what, raw=False))
             continue
         if isinstance(p, ast.Subscript) and p.value is x:
             out.append(("flat", H.text(p)))  # item access: the first value of the key
@@ -837,21 +1212,6 @@ def pickle_state_rule(ctx: Ctx, rid: str) -> int:
                 ctx.ob(rid, f"{c.name}: the pickle reduction carries every value of every key", False, "no __reduce_ex__ / __reduce__ and no __getstate__ + __setstate__ pair in the package: the default reduction of a dict subclass sends `self.items()` - the first value of each key only", c.fq, c.node, f"{c.name} pickle state")
                 continue
             via, fi = "__getstate__", gs
-        ex = H.Exec(repo, c, inline_public=False)
-        vals = sorted({o.value for o in ex.run_function(fi, auto0=None) if o.kind == "ret"})
-        if not vals:
-            raise AnalysisError(f"{c.name}: {fi.qualname} has no returning path")
-        bad, facts = [], []
-        for v in vals:
-            reads = _state_reads(v, repo, c, md, fi.module)
-            complete = [t_ for k, t_ in reads if k in ("lists", "pairs", "object")]
-            unknown = [t_ for k, t_ in reads if k == "unknown"]
-            flat = [t_ for k, t_ in reads if k == "flat"]
-            if complete:
-                facts.append(f"`{v}` reads every value through `{complete[0]}`")
-            elif unknown:
-                raise AnalysisError(f"{c.name}: cannot decide whether the pickle state `{v}` ({fi.qualname}) carries every value: `{unknown[0]}` is not a read the rule knows")
-            else:
-                bad.append(f"`{v}` is built from {('`' + flat[0] + '`') if flat else 'nothing of the object'} - the first-value view of the multi dict (one value per key): the additional values of a key do not survive a pickle round trip")
-        ctx.ob(rid, f"{c.name}: the pickle reduction carries every value of every key", not bad, f"{via} resolves to {fi.qualname}: " + ("; ".join(bad) if bad else "; ".join(facts)), fi, fi.node, f"{c.name} pickle state")
+        ok, facts, bad = _PickleJudge(repo, c, md).judge(fi)
+        ctx.ob(rid, f"{c.name}: the pickle reduction carries every value of every key", ok, f"{via} resolves to {fi.qualname}: " + ("; ".join(bad) if bad else "; ".join(facts)), fi, fi.node, f"{c.name} pickle state")
     return n
